@@ -285,6 +285,11 @@ func (e *Exec) packVariadic(sig *types.Signature, args []Term, call *ast.CallExp
 	for _, a := range args[n-1:] {
 		cur = e.seqAppendOne(cur, e.coerce(a, st.Elem, c.st))
 	}
+	// the packed slice has a known length: loops over it are unrolled
+	name := e.vc.Define("variadic", e.Sort(st), cur.S)
+	e.knownLen[name] = len(args) - (n - 1)
+	e.vc.Fact(fmt.Sprintf("(= (len!%s %s) %d)", e.Sort(st), name, len(args)-(n-1)))
+	cur = Term{name, st}
 	return append(append([]Term{}, args[:n-1]...), cur)
 }
 
